@@ -87,6 +87,16 @@ func init() {
 		call(fr.i, fr, token.NoPos, fn, []value{nilCmd, a[1]})
 		return nil
 	})
+	// sym.ExploreSchedules(on): switch schedule exploration off for set-up / follow-up phases of a harness
+	// (the default scheduler runs them: lowest-numbered runnable goroutine, timers when nothing else can run)
+	register(symPkg+"ExploreSchedules", func(fr *frame, a []value) value {
+		if a[0].(bool) {
+			fr.run().flags["noExplore"] = 0
+		} else {
+			fr.run().flags["noExplore"] = 1
+		}
+		return nil
+	})
 	register(symPkg+"CaptureStdout", func(fr *frame, a []value) value {
 		if a[0].(bool) {
 			fr.run().flags["captureStdout"] = 1
